@@ -20,6 +20,25 @@ stop() call/return) gets a ticket from one global counter; the log is then check
   everything acknowledged is delivered before stop() returns, afterwards no new thread is alive, the port
   refuses connections and can be bound again, and a second start()/send/stop() round works.
 Each case runs in one of several forked worker processes (own port range, own thread census, watchdog).
+
+In-flight schedules ('inflight' cases): stop() is called from another thread while 1..3 raw-socket senders are
+each held at one stage of a request's life:
+  a  TCP connection open, nothing sent (https: no ClientHello yet, the server thread sits in the handshake),
+  b  request line and headers sent, body not yet,
+  c  body partly sent (Content-Length announces more),
+  d  request complete and answered into the socket buffer (not read yet), the indication queued behind an
+     earlier indication whose callback is held (a handler never waits for a callback: it only puts on the queue),
+  e  request complete, the handler held inside send_response() (log record 'Sending POST response ...' of the
+     listener's logger, lock-free handler), i.e. the indication is queued, the response not yet written.
+Every stage is confirmed by observation before stop() is called (handler thread census, server thread inside
+do_handshake, handler inside the log gate); the stopper thread is then watched (frame names only) until it sits
+in shutdown() / server_close() / _stop_indication_delivery(), and only then the senders finish (send the rest
+and read the response / half-close / close) and the held callback is released, in both orders.  Oracle for the
+in-flight indication: refused or unanswered => never delivered if its body was never complete, at most once
+otherwise; success => every callback exactly once before stop() returned; the thread census is taken in the
+stopper thread directly after stop() returns; a second start()/send/stop() round must work.  http and https
+(self-signed certificate generated at run time: the only certificate of the source tree, attic/irecv/server.pem,
+has a 512 bit key that OpenSSL 3 refuses), queue bound 0/1/2, no / held / slow callbacks.
 """
 import http.client
 import itertools
@@ -28,10 +47,15 @@ import multiprocessing
 import os
 import queue
 import random
+import shutil
 import socket
+import ssl
+import subprocess
 import sys
+import tempfile
 import threading
 import time
+import warnings
 import xml.etree.ElementTree as ET
 import zlib
 
@@ -43,14 +67,21 @@ R = Run('loopback WBEMListener: senders 1..3 x indications 1..3 x 8 callback set
         'last in flight lingers, slow log handler inside stop()) x restart yes/no (quick: seeded covering subset, '
         'thorough: full product + perturbed repeat) + lifecycle specials (stop before start, double stop, 3 '
         'start/stop cycles, context manager, busy port, default 2 s get timeout, 0.6 s sleeping callback); OS '
-        'schedules only, seeded sender think times / log-record yields / switch interval')
+        'schedules only, seeded sender think times / log-record yields / switch interval; + in-flight schedules: '
+        'stop() from another thread while 1..3 raw-socket senders are held in different stages (a connection '
+        'open / b headers sent / c body partly sent / d answered but unread and queued behind a held callback / '
+        'e handler held while writing the response), all 25 stage sets of size 1..3 x http/https x callbacks '
+        'none/held/slow x release order x queue bound {0,1,2} x sender end (complete / half-close / close) x '
+        'stop() caught in shutdown() or server_close(), restart round after each (quick: 3 rotated variants per '
+        'stage set and protocol, thorough: all end combinations x callback modes x bounds)')
 
 QUICK = R.tier == 'quick'
 HOST = '127.0.0.1'
 NWORKERS = 8
 QGT = 0.02                       # queue_get_timeout used in most cases (public attribute; default is 2 s)
 PHASE_TIMEOUT = 25.0             # watchdog: one phase of a case
-BUDGET = 36.0 if QUICK else 470.0   # no new case is handed out after this many seconds
+BUDGET = 50.0 if QUICK else 560.0   # no new case is handed out after this many seconds
+TLS = {'cert': None, 'key': None, 'dir': None}   # filled in main() before the workers are forked
 
 REQ = ('<?xml version="1.0" encoding="utf-8" ?>\n'
        '<CIM CIMVERSION="2.0" DTDVERSION="2.4"><MESSAGE ID="m-%(id)s" PROTOCOLVERSION="1.4"><SIMPLEEXPREQ>'
@@ -114,6 +145,12 @@ class Ctl:
         self.slow_log = False
         self.perturb = False
         self.qgt = QGT
+        self.proto = 'http'
+        self.resp_armed = False       # in-flight stage e: handlers are held at the log record of send_response()
+        self.resp_held = threading.Semaphore(0)
+        self.resp_release = threading.Event()
+        self.resp_records = []        # one entry per response a handler has begun to send (GateHandler)
+        self.truncated = set()        # iids whose request was never sent completely
         self.phase = 'init'
         self.deadline = time.monotonic() + PHASE_TIMEOUT
         self.viol = []
@@ -175,6 +212,8 @@ def make_cb(ctl, idx, beh):
             ctl.gate(idx)
             if beh == 'slow':
                 time.sleep(0.004)
+            elif beh == 'slower':
+                time.sleep(0.03)
             elif beh == 'raise':
                 raise cb_exception(len(ctl.log) + idx)
         finally:
@@ -205,6 +244,27 @@ class HookHandler(logging.Handler):
             pass
 
 
+RESP_RECORD = 'Sending %s response with HTTP status %s'     # log_request(), called by send_response()
+
+
+class GateHandler(HookHandler):
+    """Lock-free variant (a held record must not hold up the records of other threads, stop() logs too): while
+    armed, every request handler thread is held at the record send_response() emits, i.e. after the indication
+    has been put on the queue (or found the queue full) and before the first byte of the response is written."""
+
+    def createLock(self):
+        self.lock = None
+
+    def emit(self, record):
+        ctl = self.ctl
+        if record.msg == RESP_RECORD:
+            ctl.resp_records.append(threading.get_ident())
+            if ctl.resp_armed:
+                ctl.resp_held.release()
+                ctl.resp_release.wait(20)
+        super().emit(record)
+
+
 # ----------------------------------------------------------------------------------------------------------------
 # sender side
 
@@ -229,9 +289,24 @@ def classify(iid, status, body):
         return ('badxml', type(exc).__name__ + ':' + repr(body[:100]))
 
 
-def post(port, iid, n):
+_CLIENT_CTX = []
+
+
+def client_ctx():
+    if not _CLIENT_CTX:
+        ctx = ssl.SSLContext(ssl.PROTOCOL_TLS_CLIENT)
+        ctx.check_hostname = False
+        ctx.verify_mode = ssl.CERT_NONE
+        _CLIENT_CTX.append(ctx)
+    return _CLIENT_CTX[0]
+
+
+def post(port, iid, n, proto='http'):
     body = (REQ % dict(id=iid, n=n)).encode('utf-8')
-    conn = http.client.HTTPConnection(HOST, port, timeout=12)
+    if proto == 'https':
+        conn = http.client.HTTPSConnection(HOST, port, timeout=12, context=client_ctx())
+    else:
+        conn = http.client.HTTPConnection(HOST, port, timeout=12)
     try:
         conn.request('POST', '/', body, {'Content-Type': 'application/xml; charset=utf-8',
                                          'CIMExport': 'MethodRequest', 'CIMExportMethod': 'ExportIndication',
@@ -253,7 +328,7 @@ def sender(ctl, port, ids, delays, primer):
             time.sleep(delays[k])
         ctl.send[iid] = ctl.tick()
         try:
-            st = post(port, iid, k)
+            st = post(port, iid, k, ctl.proto)
         except Exception as exc:    # pylint: disable=broad-except
             st = ('harness', repr(exc)[:200])
             ctl.violation('harness-error-in-sender', observed=st[1])
@@ -266,13 +341,107 @@ def poker(ctl, port, done):
     """Connect (and close at once) until the HTTP side is down, so that serve_forever() notices shutdown()."""
     lis = ctl.listener
     t_end = time.monotonic() + 5
-    while not done.is_set() and lis.http_started and time.monotonic() < t_end:
+    while not done.is_set() and (lis.http_started or lis.https_started) and time.monotonic() < t_end:
         try:
             s = socket.create_connection((HOST, port), timeout=1)
             s.close()
         except OSError:
             pass
         time.sleep(0.004)
+
+
+STAGE_PARTS = {'a': 0, 'b': 1, 'c': 2, 'd': 3, 'e': 3}     # pieces of the request on the wire when held
+RAW_HEAD = ('POST / HTTP/1.1\r\nHost: %s:%d\r\nAccept-Encoding: identity\r\n'
+            'Content-Type: application/xml; charset=utf-8\r\nCIMExport: MethodRequest\r\n'
+            'CIMExportMethod: ExportIndication\r\nAccept-Charset: utf-8\r\nContent-Length: %d\r\n'
+            'Connection: close\r\n\r\n')
+
+
+class Raw:
+    """One export request over a raw socket that can be held after every piece: (connection), request line and
+    headers, first half of the body, second half of the body, (response)."""
+
+    def __init__(self, ctl, port, iid, n, stage, fin):
+        self.ctl = ctl
+        self.port = port
+        self.iid = iid
+        self.stage = stage
+        self.fin = fin                # 'complete' | 'halfclose' | 'close'
+        body = (REQ % dict(id=iid, n=n)).encode('utf-8')
+        half = len(body) // 2
+        self.parts = [(RAW_HEAD % (HOST, port, len(body))).encode('ascii'), body[:half], body[half:]]
+        self.sent = 0
+        self.sock = None
+        self.tls = False
+        self.finished = False
+        if fin != 'complete' and STAGE_PARTS[stage] < 3:
+            ctl.truncated.add(iid)
+
+    def open(self):
+        self.ctl.send[self.iid] = self.ctl.tick()
+        self.sock = socket.create_connection((HOST, self.port), timeout=8)
+        self.sock.setsockopt(socket.IPPROTO_TCP, socket.TCP_NODELAY, 1)
+        if self.ctl.proto == 'https' and self.stage != 'a':
+            self.handshake()
+
+    def handshake(self):
+        self.sock = client_ctx().wrap_socket(self.sock)
+        self.tls = True
+
+    def send_parts(self, upto):
+        while self.sent < upto:
+            self.sock.sendall(self.parts[self.sent])
+            self.sent += 1
+
+    def advance(self):
+        self.send_parts(STAGE_PARTS[self.stage])
+
+    def read_response(self):
+        rsp = http.client.HTTPResponse(self.sock, method='POST')
+        try:
+            rsp.begin()
+            return classify(self.iid, rsp.status, rsp.read())
+        finally:
+            rsp.close()
+
+    def finish(self):
+        """Let the request end: the rest and the response / end of stream and the response / just close."""
+        ctl = self.ctl
+        try:
+            if self.fin == 'complete':
+                if ctl.proto == 'https' and not self.tls:
+                    self.handshake()
+                self.send_parts(3)
+                st = self.read_response()
+            elif self.fin == 'halfclose':
+                self.sock.shutdown(socket.SHUT_WR)
+                st = self.read_response()
+            else:
+                st = ('noresp', 'closed-by-sender')
+        except Exception as exc:    # pylint: disable=broad-except
+            st = ('noresp', type(exc).__name__)
+        self.close()
+        ctl.status[self.iid] = st
+        ctl.resp[self.iid] = ctl.tick()
+        self.finished = True
+
+    def close(self):
+        if self.sock is not None:
+            try:
+                self.sock.close()
+            except OSError:
+                pass
+            self.sock = None
+
+
+def stack_names(th):
+    """Function names on the stack of a thread, innermost first (observation only)."""
+    fr = sys._current_frames().get(th.ident)      # pylint: disable=protected-access
+    names = []
+    while fr is not None:
+        names.append(fr.f_code.co_name)
+        fr = fr.f_back
+    return names
 
 
 # ----------------------------------------------------------------------------------------------------------------
@@ -343,10 +512,13 @@ def accepting(port):
 # one listener under test
 
 class Session:
-    def __init__(self, ctl, ports, bound, ncb_behaviours, dup=False, late=False, hooks=False, qgt=QGT):
+    def __init__(self, ctl, ports, bound, ncb_behaviours, dup=False, late=False, hooks=False, qgt=QGT,
+                 proto='http', gate=False):
         import pywbem
         self.pywbem = pywbem
         self.ctl = ctl
+        self.proto = ctl.proto = proto
+        self.gate = gate
         self.ports = ports
         self.bound = bound
         self.behs = ncb_behaviours
@@ -363,13 +535,16 @@ class Session:
 
     def new_listener(self, port):
         kw = {} if self.bound is None else {'max_ind_queue_size': self.bound}
-        lis = self.pywbem.WBEMListener(HOST, http_port=port, **kw)
+        if self.proto == 'https':
+            lis = self.pywbem.WBEMListener(HOST, https_port=port, certfile=TLS['cert'], keyfile=TLS['key'], **kw)
+        else:
+            lis = self.pywbem.WBEMListener(HOST, http_port=port, **kw)
         if self.qgt is not None:
             lis.queue_get_timeout = self.qgt
-        if self.hooks:
+        if self.hooks or self.gate:
             lis.logger.setLevel(logging.DEBUG)
             lis.logger.propagate = False
-            lis.logger.addHandler(HookHandler(self.ctl))
+            lis.logger.addHandler((GateHandler if self.gate else HookHandler)(self.ctl))
         regs = list(self.cbs[:1] if self.late else self.cbs)
         for cb in regs:
             lis.add_callback(cb)
@@ -424,10 +599,94 @@ class Session:
             pk.join()
         return exc
 
-    def check_stopped(self, exc, where, harness_threads=()):
+    def listener_threads(self):
+        """Threads alive now that did not exist before the listener and are not the harness's."""
+        return [t for t in threading.enumerate()
+                if t not in self.baseline and not t.name.startswith('c16-') and t.is_alive()]
+
+    def handler_threads(self):
+        return [t for t in self.listener_threads() if t.name not in ('CallbackThread', 'http', 'https')]
+
+    def wait_handlers(self, pred, timeout=4.0):
+        t_end = time.monotonic() + timeout
+        while time.monotonic() < t_end:
+            if pred(len(self.handler_threads())):
+                return True
+            time.sleep(0.001)
+        return False
+
+    def server_thread_in_handshake(self, timeout=4.0):
+        t_end = time.monotonic() + timeout
+        while time.monotonic() < t_end:
+            for t in self.listener_threads():
+                if t.name == 'https' and 'do_handshake' in stack_names(t):
+                    return True
+            time.sleep(0.001)
+        return False
+
+    def stop_async(self, poke=True):
+        """Call stop() on a thread of its own.  Tickets right before and after; the thread census is taken in
+        that thread directly after stop() has returned."""
+        ctl = self.ctl
+        ctl.set_phase('stop%d' % self.nsess)
+        h = {'done': threading.Event(), 'exc': None, 'left': None, 'pk': None, 'pkdone': threading.Event()}
+        nsess = self.nsess
+        lis = self.lis
+
+        def run():
+            ctl.stop_call[nsess] = ctl.tick()
+            ctl.stop_called.set()
+            try:
+                lis.stop()
+            except BaseException as e:        # pylint: disable=broad-except
+                h['exc'] = e
+            ctl.stop_ret[nsess] = ctl.tick()
+            h['left'] = [t.name for t in self.listener_threads()]
+            h['done'].set()
+        if poke:
+            h['pk'] = threading.Thread(target=poker, args=(ctl, self.port, h['pkdone']), name='c16-poker')
+            h['pk'].start()
+        h['thread'] = threading.Thread(target=run, name='c16-stopper')
+        h['thread'].start()
+        return h
+
+    def stop_waits_for(self, h, held_threads, https_a):
+        """What the stopper thread waits for right now (frames only, nothing is touched): 'handler' = inside
+        Thread.join() of one of the request handler threads the harness holds (stop() cannot go on before the
+        sender does), 'handshake' = inside shutdown() while the server thread sits in the TLS handshake of a
+        held connection (ditto), 'delivery' = inside _stop_indication_delivery(), 'shutdown' = inside
+        shutdown() (at most one poll interval), None = elsewhere."""
+        fr = sys._current_frames().get(h['thread'].ident)     # pylint: disable=protected-access
+        names = []
+        while fr is not None:
+            name = fr.f_code.co_name
+            if name == 'join':
+                t = fr.f_locals.get('self')
+                if isinstance(t, threading.Thread) and t in held_threads and t.is_alive():
+                    return 'handler'
+            names.append(name)
+            fr = fr.f_back
+        if '_stop_indication_delivery' in names:
+            return 'delivery'
+        if 'shutdown' in names:
+            return 'handshake' if https_a else 'shutdown'
+        return None
+
+    def stop_join(self, h):
+        h['done'].wait(PHASE_TIMEOUT + 10)    # the watchdog reports a hang earlier
+        h['thread'].join(5)
+        h['pkdone'].set()
+        if h['pk']:
+            h['pk'].join()
+        return h['exc']
+
+    def check_stopped(self, exc, where, harness_threads=(), left_at_return=None):
         """stop() has returned: no exception, nothing left behind."""
         ctl = self.ctl
         lis = self.lis
+        if left_at_return:
+            ctl.violation('stop-leaves-thread', where=where, threads=left_at_return,
+                          when='census in the stopper thread directly after stop() returned')
         if exc is not None:
             msg = str(exc)
             if CB_MARK in msg:
@@ -443,6 +702,8 @@ class Session:
             ctl.violation(vid, where=where, observed=repr(exc)[:200])
         if lis.http_started:
             ctl.violation('stop-leaves-http-started', where=where)
+        if lis.https_started:
+            ctl.violation('stop-leaves-https-started', where=where)
         if lis.ind_queue_exists():
             ctl.violation('stop-leaves-indication-queue', where=where)
         left = [t for t in threading.enumerate()
@@ -594,6 +855,22 @@ def check_log(ctl, ses, nsessions):
             if len(got) > len(set(got)):
                 ctl.violation('unanswered-indication-delivered-more-than-once', indication=iid, callbacks=got)
 
+    # nothing at all runs in a callback after the stop() of its round has returned (whatever the sender was told)
+    for e in log:
+        sess = ctl.session_of.get(e[2])
+        if sess in ctl.stop_ret and e[1] > ctl.stop_ret[sess]:
+            ctl.violation('delivery-after-stop-returned', indication=e[2], session=sess, event=e[0],
+                          response=repr(status.get(e[2])))
+            break
+
+    # a request whose body was never sent completely: neither acknowledged nor delivered
+    for iid in sorted(ctl.truncated):
+        st = status.get(iid)
+        if iid in per:
+            ctl.violation('truncated-request-delivered', indication=iid, response=repr(st))
+        if st is not None and st[0] != 'noresp' and st != ('http', 400):
+            ctl.violation('truncated-request-answered-unexpectedly', indication=iid, response=repr(st)[:200])
+
     # one consumer thread per start()..stop() round, not a thread of the harness
     for sess in range(1, nsessions + 1):
         tids = {e[4] for e in enters if ctl.session_of.get(e[2]) == sess}
@@ -613,7 +890,9 @@ def check_log(ctl, ses, nsessions):
     # responses
     for iid, st in sorted(status.items()):
         sess = ctl.session_of[iid]
-        if st[0] in ('http', 'badxml', 'wrongid'):
+        if iid in ctl.truncated:
+            pass                      # checked above
+        elif st[0] in ('http', 'badxml', 'wrongid'):
             ctl.violation('unexpected-response-' + st[0], indication=iid, response=repr(st)[:200])
         elif st[0] == 'noresp':
             if sess not in ctl.stop_call or ctl.resp[iid] < ctl.stop_call[sess]:
@@ -709,6 +988,172 @@ def run_grid_case(ctl, ports, case, rnd):
                 ses.after_failed_stop()
     ctl.release.set()
     check_log(ctl, ses, nsess)
+
+
+def run_inflight_case(ctl, ports, case, rnd):
+    """stop() from another thread while raw senders are held in the stages of case[2]; see the module docstring."""
+    _, proto, stages, fins, cbmode, order, bound, cbset, variant = case
+    deep = bool(variant & 1)
+    rev = bool(variant & 2)
+    ctl.perturb = bool(variant & 4)
+    sys.setswitchinterval(1e-4 if (variant & 8) else 0.005)
+    if cbmode == 'slow':
+        cbset = tuple('slower' if b == 'fast' else b for b in cbset)
+    ctl.hold = 'acked' if cbmode == 'held' else None
+    ses = Session(ctl, ports, bound, cbset, gate=True, proto=proto)
+    if not ses.start_first():
+        return
+    ctl.set_phase('send')
+    ctl.go.set()
+    raws = []
+    h = None
+
+    def stage_all(which):
+        n = 0
+        for r in raws:
+            if r.stage in which:
+                try:
+                    r.open()
+                    r.advance()
+                    n += 1
+                except Exception as exc:      # pylint: disable=broad-except
+                    r.close()
+                    ctl.status[r.iid] = ('noresp', type(exc).__name__)
+                    ctl.resp[r.iid] = ctl.tick()
+                    r.finished = True
+                    ctl.violation('in-flight-stage-not-reached', stage=r.stage, observed=repr(exc)[:200])
+        return n
+
+    def primer_done():
+        return sum(1 for e in list(ctl.log) if e[0] == 'exit' and e[2] == '1.s0.i0') >= len(cbset)
+
+    def release_callback():
+        ctl.release.set()
+        if cbmode == 'held':
+            t_end = time.monotonic() + 3
+            while not primer_done() and time.monotonic() < t_end:
+                time.sleep(0.001)
+
+    try:
+        nprim = {'none': 0, 'held': 1, 'slow': 2}[cbmode]
+        if nprim:
+            ses.run_senders(1, 1, nprim, rnd)
+            if cbmode == 'held' and not ctl.first_entered.wait(12):
+                ctl.violation('first-indication-never-reaches-callback')
+        for k, (stg, fin) in enumerate(zip(stages, fins)):
+            iid = '1.s%d.i0' % (k + 1)
+            ctl.session_of[iid] = 1
+            ctl.order[(1, k + 1)] = [iid]
+            raws.append(Raw(ctl, ses.port, iid, k, stg, fin))
+        ses.wait_handlers(lambda n: n == 0)       # the handlers of the answered earlier requests have ended
+        held_threads = set()
+
+        def new_handlers(n, stage):
+            """The n connections just opened have got their handler threads (which stay: they wait for input)."""
+            t_end = time.monotonic() + 4
+            while time.monotonic() < t_end:
+                new = set(ses.handler_threads()) - held_threads
+                if len(new) >= n:
+                    held_threads.update(new)
+                    return
+                time.sleep(0.001)
+            ctl.violation('in-flight-stage-not-reached', stage=stage, observed='no handler thread')
+
+        # d: complete request, answered into the socket buffer (the handler got to send_response(), then ended),
+        # queued behind the held callback
+        seen = len(ctl.resp_records)
+        nd = stage_all('d')
+        if nd:
+            t_end = time.monotonic() + 4
+            while len(ctl.resp_records) < seen + nd and time.monotonic() < t_end:
+                time.sleep(0.001)
+            if len(ctl.resp_records) < seen + nd or not ses.wait_handlers(lambda n: n == 0):
+                ctl.violation('in-flight-stage-not-reached', stage='d', observed='handler does not answer and end')
+        # b, c: handlers wait for the (rest of the) body
+        nbc = stage_all('bc')
+        if nbc:
+            new_handlers(nbc, 'bc')
+        # e: handlers held inside send_response()
+        if 'e' in stages:
+            ctl.resp_armed = True
+            ne = stage_all('e')
+            for _ in range(ne):
+                if not ctl.resp_held.acquire(timeout=5):
+                    ctl.violation('in-flight-stage-not-reached', stage='e', observed='handler not at the log gate')
+            ctl.resp_armed = False
+            new_handlers(ne, 'e')
+        # a: connection only (https: the server thread itself waits in the TLS handshake, so these come last)
+        na = stage_all('a')
+        if na:
+            if proto == 'http':
+                new_handlers(na, 'a')
+            elif not ses.server_thread_in_handshake():
+                ctl.violation('in-flight-stage-not-reached', stage='a', observed='server thread not in handshake')
+        https_a = proto == 'https' and na > 0
+
+        h = ses.stop_async(poke=deep and not https_a)
+        # watch stop() until it has returned or provably waits for something the harness holds
+        where = 'unknown'
+        t_end = time.monotonic() + 4
+        while time.monotonic() < t_end:
+            if h['done'].is_set():
+                where = 'returned'    # with requests in flight / the callback held: the census decides
+                break
+            w = ses.stop_waits_for(h, held_threads, https_a)
+            if w in ('handler', 'handshake') or (w == 'shutdown' and not deep):
+                where = w
+                break
+            if w == 'delivery' and cbmode == 'held' and not ctl.release.is_set():
+                if not any(t.is_alive() for t in held_threads) and not https_a:
+                    where = w         # nothing but the held callback (and what is queued behind it) is left
+                    break
+                release_callback()    # stop() went past the held handlers and waits for the callback: let it
+            time.sleep(0.001)
+        if where == 'unknown':
+            ctl.violation('in-flight-stop-neither-returns-nor-waits', stack=stack_names(h['thread'])[:8],
+                          held=[(t.name, t.is_alive()) for t in held_threads],
+                          threads=[(t.name, stack_names(t)[:6]) for t in ses.listener_threads()])
+        ctl.set_phase('finish')
+        if order == 'cb-first':
+            release_callback()
+        ctl.resp_release.set()
+        for r in (reversed(raws) if rev else raws):
+            if not r.finished:
+                r.finish()
+        if order != 'cb-first' and not ctl.release.is_set():
+            if cbmode == 'held':
+                # everything is answered; stop() has to wait for the held callback (queue not empty, or join of
+                # the callback thread): see it arrive there and give it some time to return wrongly
+                t_end = time.monotonic() + 3
+                while (time.monotonic() < t_end and not h['done'].is_set()
+                       and ses.stop_waits_for(h, (), False) != 'delivery'):
+                    time.sleep(0.001)
+                h['done'].wait(0.12)
+            release_callback()
+        ctl.set_phase('stop1')
+        exc = ses.stop_join(h)
+        ctl.senders_done.set()
+        ses.check_stopped(exc, 'stop() with requests in flight: ' + stages, left_at_return=h['left'])
+        nsess = 1
+        ctl.hold = None
+        if ses.restart():
+            nsess = 2
+            ctl.set_phase('send2')
+            ses.run_senders(2, 1, 2, rnd)
+            ses.wait_delivered(2)
+            exc = ses.stop()
+            ses.check_stopped(exc, 'stop() after restart')
+            if ses.failed_stop:
+                ses.after_failed_stop()
+        check_log(ctl, ses, nsess)
+    finally:
+        ctl.resp_armed = False
+        ctl.release.set()
+        ctl.resp_release.set()
+        for r in raws:
+            r.close()
+        if h is not None:
+            h['pkdone'].set()
 
 
 def run_special(ctl, ports, case, rnd):
@@ -868,6 +1313,8 @@ def run_case(case_no, case, seed, ports):
     try:
         if case[0] == 'grid':
             run_grid_case(ctl, ports, case, rnd)
+        elif case[0] == 'inflight':
+            run_inflight_case(ctl, ports, case, rnd)
         else:
             run_special(ctl, ports, case, rnd)
     except Exception as exc:        # pylint: disable=broad-except
@@ -880,7 +1327,7 @@ def run_case(case_no, case, seed, ports):
         ctl.senders_done.set()
         sys.setswitchinterval(0.005)
         lis = ctl.listener
-        if lis is not None and (lis.http_started or lis.ind_queue_exists()):
+        if lis is not None and (lis.http_started or lis.https_started or lis.ind_queue_exists()):
             ctl.set_phase('cleanup-stop')
             try:
                 lis.stop()
@@ -888,6 +1335,43 @@ def run_case(case_no, case, seed, ports):
                 pass
         WATCH['ctl'] = None
     return ctl.viol
+
+
+STAGE_SETS = tuple(''.join(c) for n in (1, 2, 3) for c in itertools.combinations('abcde', n))
+STAGE_ENDS = {'a': ('complete', 'close', 'halfclose'), 'b': ('complete', 'halfclose', 'close'),
+              'c': ('complete', 'close', 'halfclose'), 'd': ('complete',), 'e': ('complete', 'close')}
+IF_CBSETS = (('fast',), ('fast', 'raise'), ('raise', 'fast'), ('fast', 'fast'))
+IF_CBMODES = (('none', 'cb-first'), ('held', 'cb-first'), ('held', 'senders-first'), ('slow', 'cb-first'))
+
+
+def build_inflight(tier, seed, protos):
+    """('inflight', proto, stages, ends, callback mode, release order, bound, callback set, variant bits)"""
+    rnd = random.Random(seed * 7919 + 16)
+    out = []
+    if tier == 'quick':
+        # every stage set x protocol three times; callback mode, order, bound, ends and bits rotate so that every
+        # stage meets every end, every callback mode and every bound under both protocols
+        idx = seed
+        for proto in protos:
+            for stages in STAGE_SETS:
+                for k in range(3):
+                    idx += 1
+                    modes = [m for m in IF_CBMODES if m[0] == 'held'] if 'd' in stages else IF_CBMODES
+                    cbmode, order = modes[idx % len(modes)]
+                    ends = tuple(STAGE_ENDS[s][(idx // 3 + k + j) % len(STAGE_ENDS[s])]
+                                 for j, s in enumerate(stages))
+                    out.append(('inflight', proto, stages, ends, cbmode, order, (idx + idx // 3) % 3,
+                                IF_CBSETS[(idx + idx // 4) % 4], (idx * 5 + idx // 16) % 16))
+    else:
+        for proto in protos:
+            for stages in STAGE_SETS:
+                modes = [m for m in IF_CBMODES if m[0] == 'held'] if 'd' in stages else IF_CBMODES
+                for ends in itertools.product(*(STAGE_ENDS[s] for s in stages)):
+                    for cbmode, order in modes:
+                        for bound in (0, 1, 2):
+                            out.append(('inflight', proto, stages, ends, cbmode, order, bound,
+                                        rnd.choice(IF_CBSETS), rnd.randrange(16)))
+    return out
 
 
 def build_cases(tier, seed):
@@ -927,7 +1411,7 @@ def build_cases(tier, seed):
                             for r in (False, True):
                                 var = (rnd.randrange(32) & ~1) | rep
                                 grid.append(('grid', scen, s, i, cb, b, r, var))
-    return specials + grid
+    return specials + build_inflight(tier, seed, ('http', 'https') if TLS['cert'] else ('http',)) + grid
 
 
 # ----------------------------------------------------------------------------------------------------------------
@@ -938,6 +1422,10 @@ WATCH = {'ctl': None}
 
 def worker(wid, cases, nxt, cut, outq, seed):
     logging.raiseExceptions = False
+    warnings.simplefilter('ignore')
+    if not os.environ.get('C16_DEBUG'):
+        # socketserver prints a traceback for every request whose peer went away (the in-flight cases do that)
+        sys.stderr = open(os.devnull, 'w')    # pylint: disable=consider-using-with
     top = logging.getLogger('pywbem.listener')
     top.addHandler(logging.NullHandler())
     top.propagate = False
@@ -969,7 +1457,55 @@ def worker(wid, cases, nxt, cut, outq, seed):
     bye(0)
 
 
+def make_tls_material():
+    """Self-signed certificate and key for 127.0.0.1 in a scratch directory (removed at the end of the run);
+    without the cryptography package or an openssl binary the https schedules are left out."""
+    base = '/dev/shm' if os.path.isdir('/dev/shm') and os.access('/dev/shm', os.W_OK) else None
+    d = tempfile.mkdtemp(prefix='c16tls-', dir=base)
+    cert, key = os.path.join(d, 'cert.pem'), os.path.join(d, 'key.pem')
+    try:
+        try:
+            import datetime
+            import ipaddress
+            from cryptography import x509
+            from cryptography.hazmat.primitives import hashes, serialization
+            from cryptography.hazmat.primitives.asymmetric import ec
+            from cryptography.x509.oid import NameOID
+            k = ec.generate_private_key(ec.SECP256R1())
+            name = x509.Name([x509.NameAttribute(NameOID.COMMON_NAME, 'localhost')])
+            now = datetime.datetime.now(datetime.timezone.utc)
+            c = (x509.CertificateBuilder().subject_name(name).issuer_name(name).public_key(k.public_key())
+                 .serial_number(x509.random_serial_number()).not_valid_before(now - datetime.timedelta(days=1))
+                 .not_valid_after(now + datetime.timedelta(days=3))
+                 .add_extension(x509.SubjectAlternativeName([x509.DNSName('localhost'),
+                                                             x509.IPAddress(ipaddress.ip_address(HOST))]), False)
+                 .sign(k, hashes.SHA256()))
+            with open(cert, 'wb') as f:
+                f.write(c.public_bytes(serialization.Encoding.PEM))
+            with open(key, 'wb') as f:
+                f.write(k.private_bytes(serialization.Encoding.PEM, serialization.PrivateFormat.TraditionalOpenSSL,
+                                        serialization.NoEncryption()))
+        except ImportError:
+            subprocess.run(['openssl', 'req', '-x509', '-newkey', 'rsa:2048', '-nodes', '-keyout', key, '-out',
+                            cert, '-days', '3', '-subj', '/CN=localhost'], check=True, timeout=30,
+                           stdout=subprocess.DEVNULL, stderr=subprocess.DEVNULL)
+        ctx = ssl.SSLContext(ssl.PROTOCOL_TLS_SERVER)
+        ctx.load_cert_chain(cert, key)
+        TLS.update(cert=cert, key=key, dir=d)
+    except Exception:               # pylint: disable=broad-except
+        shutil.rmtree(d, ignore_errors=True)
+
+
 def main():
+    try:
+        run_all()
+    finally:
+        if TLS['dir']:
+            shutil.rmtree(TLS['dir'], ignore_errors=True)
+
+
+def run_all():
+    make_tls_material()
     cases = build_cases(R.tier, R.seed)
     ctx = multiprocessing.get_context('fork')
     outq = ctx.Queue()
